@@ -150,6 +150,33 @@ class RecPipe(_io.BufferedReader):
         return d
 
 
+class _SockView:
+    """position bookkeeping for a reader that owns a socket: pos = bytes received - bytes still in the wrapper's (public) buffer"""
+
+    def __init__(self, sock, data):
+        self.sock = sock
+        self.data = bytes(data)
+        self.rdr = None
+
+    def received(self):
+        return sum(e[1] for e in self.sock._events if e[0] == "recv")
+
+    @property
+    def pos(self):
+        got = self.received()
+        try:
+            buffered = len(self.rdr.datastream.buffer) if self.rdr is not None else 0
+        except Exception:  # noqa: BLE001
+            buffered = 0
+        return got - buffered
+
+    def close(self):
+        try:
+            self.sock.close()
+        except OSError:
+            pass
+
+
 def family(ex):
     import pynmeagps.exceptions as nme
     import pyrtcm.exceptions as rte
@@ -202,12 +229,21 @@ def direct_parse(raw, msgmode=0, validate=1, pbf=1, labelmsm=1):
     return True, digest(m), ""
 
 
-def run_reader(data, filt=7, quit=1, parsing=True, handler=True, msgmode=0, validate=1, pbf=1, keep_reads=True, intern=None, labelmsm=1, bursts=(), kind="min"):
+def run_reader(data, filt=7, quit=1, parsing=True, handler=True, msgmode=0, validate=1, pbf=1, keep_reads=True, intern=None, labelmsm=1, bursts=(), kind="min", poll=False):
     """One complete iteration of UBXReader over `data`.  Returns the run record."""
     from pyubx2 import UBXReader
 
     events = []
-    if kind == "bytesio" and not bursts:
+    sockview = None
+    if kind == "sock" and not bursts:
+        # a scripted socket (socket.socket subclass): the reader wraps it itself; segment boundaries are placed just before every LF
+        # (between CR and LF), inside headers and at a few seeded positions; what is unread = not yet received + the wrapper's buffer
+        from . import sock as _sock
+
+        cuts = sorted({i for i, b in enumerate(data) if b == 0x0A and i > 0} | {k for k in range(3, len(data), 17)})
+        stream = _sock.ScriptSock(_sock.segments(bytes(data), cuts), "close", [])
+        sockview = _SockView(stream, data)
+    elif kind == "bytesio" and not bursts:
         stream = RecBytesIO(data, events)
     elif kind == "pipe" and not bursts:
         stream = RecPipe(data, events)
@@ -218,6 +254,19 @@ def run_reader(data, filt=7, quit=1, parsing=True, handler=True, msgmode=0, vali
     def on_error(err):
         events.append({"t": "handler", "n": 0, "got": 0, "a": 0, "b": stream.pos, "p": "", "fam": family(err)})
         errs.append(err)
+
+    if handler and (len(data) + filt) % 3 == 0:
+        # "error handling object or function": every third run hands over a callable OBJECT (whose truth value happens to be False,
+        # as an empty collector with __len__ would be) instead of a plain function
+        class _Collector:
+            def __bool__(self):
+                return False
+
+            def __call__(self, err):
+                events.append({"t": "handler", "n": 0, "got": 0, "a": 0, "b": stream.pos, "p": "", "fam": family(err)})
+                errs.append(err)
+
+        on_error = _Collector()
 
     kw = dict(msgmode=msgmode, validate=validate, protfilter=filt, quitonerror=quit, parsebitfield=pbf, parsing=parsing, labelmsm=labelmsm)
     if handler:
@@ -238,12 +287,26 @@ def run_reader(data, filt=7, quit=1, parsing=True, handler=True, msgmode=0, vali
         signal.alarm((10 if _HANGS == 0 else 2) + len(data) // 20000)
     try:
         rdr = UBXReader(stream, **kw)
+        if sockview is not None:
+            sockview.rdr = rdr
+            stream = sockview
         it = iter(rdr)
         while True:
             try:
                 raw, parsed = next(it)
             except StopIteration:
                 events.append({"t": "eof", "n": 0, "got": 0, "a": 0, "b": stream.pos, "p": "", "fam": ""})
+                # a polling caller asks again after end-of-stream: nothing may come back (a late item would be invented / duplicated data)
+                nev = len(events)
+                for _ in range(3 if poll else 0):
+                    raw, parsed = rdr.read()
+                    if raw is not None or parsed is not None:
+                        ok_raw = isinstance(raw, (bytes, bytearray))
+                        rb = bytes(raw) if ok_raw else b""
+                        items.append({"raw": rb, "ok_raw": ok_raw, "endpos": stream.pos, "pt": ptype(parsed), "pd": digest(parsed)})
+                        events.append({"t": "item", "n": 0, "got": 0, "a": stream.pos - len(rb), "b": stream.pos, "p": "", "fam": ""})
+                if not any(e["t"] == "item" for e in events[nev:]):
+                    del events[nev:]  # the repeated end-of-stream reads themselves are not part of the logged run
                 break
             ok_raw = isinstance(raw, (bytes, bytearray))
             rb = bytes(raw) if ok_raw else b""
@@ -265,10 +328,14 @@ def run_reader(data, filt=7, quit=1, parsing=True, handler=True, msgmode=0, vali
     if use_alarm:
         signal.alarm(0)
         signal.signal(signal.SIGALRM, old)
+    if sockview is not None:
+        sockview.close()
     run = {
         "filter": filt, "quit": quit, "parsing": 1 if parsing else 0, "handler": 1 if handler else 0,
         "msgmode": msgmode, "validate": validate, "pbf": pbf,
-        "end": end, "endfam": endfam, "left": len(stream.data) - stream.pos,
+        # unread = what the underlying stream still holds (for a socket: what was never received; a truncated tail legitimately
+        # stays in the wrapper's buffer, whose read(n) is all-or-nothing)
+        "end": end, "endfam": endfam, "left": (len(stream.data) - stream.pos) if sockview is None else (len(stream.data) - sockview.received()),
         "errfams": [family(e) for e in errs],
         "raised_same": -1,
     }
@@ -307,4 +374,6 @@ def finish_run(run, interner):
 
 
 def same_exception(a, b):
-    return type(a) is type(b) and a.args == b.args
+    # "that same exception": same class and same arguments (arguments that are themselves exception objects - pynmeagps wraps a
+    # message error in its parse error under VALMSGID - compare by their printable form: exceptions have no value equality)
+    return type(a) is type(b) and (a.args == b.args or repr(a.args) == repr(b.args))
